@@ -251,8 +251,13 @@ class ClauseToRule(_tf.TelTransformer):
         neg = lambda x: ctx.add_formula(_bd.Negation(x))
         nxt = lambda l, r: ctx.add_formula(stp(r, abs(l), False))
         rhs = head_formula_to_body_formula(x.rhs, ctx.add_formula)
-        frm = neg(nxt(x.lhs, rhs))
-        self.__body.append(frm.translate(ctx, step))
+        lit = nxt(x.lhs, rhs).translate(ctx, step)
+        if lit < 0:
+            # the shifted formula is itself negated: keep the double negation
+            aux = ctx.backend.add_atom()
+            ctx.backend.add_rule([aux], [lit])
+            lit = aux
+        self.__body.append(-lit)
 
 def translate_clause(clause, ctx, step, body_literal):
     head = []
